@@ -1,6 +1,6 @@
 (** C07 — correspondence: the model's pair tree and AST against pest's and the real builder's, and the
     spec-side predicate on the implementation's outputs. *)
-From V Require Import Base.Util Gql.Ast Peg.Peg Gen.C07_grammar_gen C07.Builder C07.Model C07.AstEq.
+From V Require Import Base.Util Gql.Ast Peg.Peg Gen.C07_grammar_gen C07.Builder C07.Model C07.AstEq C07.Spec.
 
 (** one pair in pre-order, as the harness prints pest's token queue *)
 Inductive tok := T (r : rule) (s e n : N).
@@ -17,8 +17,12 @@ Definition tok_eqb (a b : tok) : bool :=
   match a, b with T r s e n, T r' s' e' n' => rule_eqb r r' && N.eqb s s' && N.eqb e e' && N.eqb n n' end.
 
 Inductive case :=
-| COp (file : N) (inp : str) (tree : option (list tok)) (ast : presult opdoc) (canon_same : bool)
-| CTs (file : N) (inp : str) (tree : option (list tok)) (ast : presult tsdoc) (canon_same : bool).
+| COp (file : N) (inp : str) (tree : option (list tok)) (ast : presult opdoc) (canon_same in_lang : bool)
+| CTs (file : N) (inp : str) (tree : option (list tok)) (ast : presult tsdoc) (canon_same in_lang : bool).
+(** [canon_same]: the position-erased AST equals that of the canonical rendering of the same token
+    sequence (computed by the harness on the implementation's outputs; true when there is no partner).
+    [in_lang]: the harness built the text from the grammar of the specification, so it is a document of
+    the language and the property speaks about it. *)
 
 Definition tree_agrees (start : rule) (inp : str) (tree : option (list tok)) : bool :=
   match parse_pairs start inp, tree with
@@ -37,14 +41,19 @@ Definition presult_eqb {A} (eqb : A -> A -> bool) (a b : presult A) : bool :=
 
 Definition agree (c : case) : bool :=
   match c with
-  | COp file inp tree ast _ =>
+  | COp file inp tree ast _ _ =>
       tree_agrees R_ExecutableDocument inp tree && presult_eqb opdoc_eqb (parse_operation_document file inp) ast
-  | CTs file inp tree ast _ =>
+  | CTs file inp tree ast _ _ =>
       tree_agrees R_TypeSystemExtensionDocument inp tree && presult_eqb tsdoc_eqb (parse_type_system_document file inp) ast
   end.
 
+(** the property, read on the implementation's own output: for a text of the language the parse must
+    succeed, every positioned node must sit on its token (Spec.v), strings must carry the value the
+    specification gives them, and the result must not depend on ignored tokens *)
 Definition holds (c : case) : bool :=
   match c with
-  | COp _ _ _ _ same => same
-  | CTs _ _ _ _ same => same
+  | COp file inp _ ast same in_lang =>
+      if in_lang then match ast with POk d => ck_opdoc inp file d && same | _ => false end else true
+  | CTs file inp _ ast same in_lang =>
+      if in_lang then match ast with POk d => ck_tsdoc inp file d && same | _ => false end else true
   end.
